@@ -237,6 +237,41 @@ def gen_i32(rng, big: bool) -> tuple[str, list[int], list[int]]:
     return text, [32] * nargs, rws
 
 
+def bound_reading_loops() -> list[tuple[str, list[int], list[int]]]:
+    """Directed family: loops (also nested) whose body reads the lower bound / upper bound / induction variable and defines
+    temporaries after those reads; bounds are constants or computed, at least two iterations."""
+    out = []
+    bodies = [("%iv - %lbv", ["%t = arith.subi %ivv, %lbv : i32", "%u = arith.muli %t, %t : i32", "%y = arith.addi %acc, %u : i32"]),
+              ("%ub - %iv", ["%t = arith.subi %ubv, %ivv : i32", "%u = arith.muli %t, %ivv : i32", "%y = arith.addi %acc, %u : i32"]),
+              ("lb then ub", ["%t = arith.addi %acc, %lbv : i32", "%u = arith.xori %t, %ubv : i32", "%w = arith.muli %u, %ivv : i32", "%y = arith.addi %w, %lbv : i32"]),
+              ("acc only", ["%t = arith.addi %acc, %acc : i32", "%y = arith.addi %t, %x : i32"])]
+    for lb_src in ("const1", "const2", "arg"):
+        for ub in (4, 6):
+            for st in (1, 2):
+                for _name, body in bodies:
+                    pre = []
+                    if lb_src == "arg":
+                        pre = ["%c3 = arith.constant 3 : i32", "%m = arith.andi %x, %c3 : i32", "%c1 = arith.constant 1 : i32", "%lb32 = arith.addi %m, %c1 : i32",
+                               "%lb = arith.index_cast %lb32 : i32 to index"]
+                    else:
+                        pre = [f"%lb = arith.constant {1 if lb_src == 'const1' else 2} : index"]
+                    text = ("func.func @main(%x : i32, %z : i32) -> i32 {\n  " + "\n  ".join(pre) + f"\n  %ub = arith.constant {ub} : index\n  %st = arith.constant {st} : index\n"
+                            "  %r = scf.for %i = %lb to %ub step %st iter_args(%acc = %z) -> (i32) {\n"
+                            "    %ivv = arith.index_cast %i : index to i32\n    %lbv = arith.index_cast %lb : index to i32\n    %ubv = arith.index_cast %ub : index to i32\n    "
+                            + "\n    ".join(body) + "\n    scf.yield %y : i32\n  }\n  func.return %r : i32\n}\n")
+                    out.append((text, [32, 32], [32]))
+    # nested: the inner lower bound is computed in the outer body and read in the inner body
+    for ub2 in (5, 7):
+        text = ("func.func @main(%x : i32, %z : i32) -> i32 {\n  %one = arith.constant 1 : index\n  %n = arith.constant 4 : index\n"
+                f"  %m = arith.constant {ub2} : index\n"
+                "  %r = scf.for %i = %one to %n step %one iter_args(%a = %z) -> (i32) {\n    %c = arith.addi %i, %one : index\n"
+                "    %a2 = scf.for %j = %c to %m step %one iter_args(%b = %a) -> (i32) {\n      %jv = arith.index_cast %j : index to i32\n      %cv = arith.index_cast %c : index to i32\n"
+                "      %t = arith.subi %jv, %cv : i32\n      %u = arith.muli %t, %jv : i32\n      %y = arith.addi %b, %u : i32\n      scf.yield %y : i32\n    }\n"
+                "    scf.yield %a2 : i32\n  }\n  func.return %r : i32\n}\n")
+        out.append((text, [32, 32], [32]))
+    return out
+
+
 def canon_snippets(rng, n: int) -> list[tuple[str, int]]:
     """riscv_func functions with constants at boundary values for `canonicalize` alone: (text, nargs)."""
     out = []
@@ -360,9 +395,13 @@ def run(ctx: Ctx):
     metas: list[dict[str, Any]] = []
     stats = {"pipeline_raised": 0, "asm_unsupported": 0, "source_unsupported": 0, "canon_raised": 0}
     raised_kinds: dict[str, int] = {}
-    for k in range(140 if q else 3000):
+    directed = bound_reading_loops()
+    for k in range((140 if q else 3000) + len(directed)):
         rng = ctx.rng(f"prog{k}")
-        text, widths, rws = gen_i32(rng, big=rng.random() < 0.25)
+        if k < len(directed):
+            text, widths, rws = directed[k]
+        else:
+            text, widths, rws = gen_i32(rng, big=rng.random() < 0.25)
         try:
             src = progs.parse(text)
             src.verify()
